@@ -13,7 +13,7 @@ def plan(tier, seed):
     blocks = []
     if tier == 'quick':
         blocks = [(3, 2, 'all', 'ints'), (2, 3, 'all', 'ints'), (4, 1, 'all', 'ints'), (3, 2, 'core', alt),
-                  (1, 4, 'all', 'ints')]
+                  (1, 4, 'all', 'ints'), (3, 1, 'sch01', 'ints'), (2, 2, 'sch01', 'ints')]
     else:
         blocks = [(4, 2, 'core', 'ints'), (3, 3, 'all', 'ints'), (5, 1, 'core', 'ints'), (3, 2, 'all', alt),
                   (4, 1, 'all', alt), (2, 4, 'all', 'ints'), (3, 2, 'sch01', 'ints'), (1, 5, 'all', 'ints')]
@@ -131,6 +131,35 @@ def case(ds, labels_name, n, s, c):
     return {'cfg': {}, 'dataset': ds, 'labels': labels_name, 'n': n, 'scheme': s, 'candidate': c}
 
 
+def histories(ctx, ds0, lname, n, schemes):
+    """one KemenyComputingFactory scores a candidate against a dataset OBJECT, the object is then mutated in place
+    (element removed / empty rankings removed), and the SAME factory scores every candidate of the new universe
+    against the SAME object: scores and refusals must be those of the mutated dataset."""
+    from ..lib import mk_scheme, mk_ranking, mutation_histories, prepare_mutated
+    lab = labels_of(lname, n)
+    for what, after in mutation_histories(ds0):
+        uni0 = spaces.universe_of(ds0)
+        universe = spaces.universe_of(after)
+        for s in schemes:
+            fac = _lib['K'](mk_scheme(s))
+            first = mk_ranking((tuple(uni0),), lab)
+            d = prepare_mutated(ds0, lab, what, warm=lambda dd: fac.get_kemeny_score(first, dd))
+            for c in spaces.weak_orders(universe):
+                cr = mk_ranking(c, lab)
+                exp = refmodel.ref_score(c, after, s[0], s[1])
+                cs = dict(case(after, lname, n, s, c), mutated_in_place_from=[ds0, what])
+                ctx.evals += 1
+                try:
+                    got = float(fac.get_kemeny_score(cr, d))
+                except Exception as e:
+                    ctx.violation('score-raises-after-the-dataset-was-mutated', cs, None, exp, exc=e)
+                    break
+                if not abs(got - exp) <= 1e-9 * max(1.0, abs(exp)):
+                    ctx.violation('score-mismatch-after-the-dataset-was-mutated', cs, got, exp)
+                    break
+            ctx.count('histories_factory_reused_across_a_mutation')
+
+
 def run_shard(sh):
     ctx = Ctx(ID)
     schemes = scheme_list(sh['schemes'])
@@ -139,6 +168,8 @@ def run_shard(sh):
         nds += 1
         before = ctx.cases
         check_case(ctx, ds, sh['labels'], sh['n'], schemes)
+        if sh['schemes'] == 'all' and sh['n'] == 3 and sh['m'] == 2:
+            histories(ctx, ds, sh['labels'], sh['n'], [spaces.UNIFYING, spaces.POSITIONAL])
         ctx.count('candidate_cases', ctx.cases - before)
         ctx.cases = before + 1  # "cases" for the closed-form check = datasets; candidates counted separately
         if not spaces.is_complete(ds):
@@ -155,6 +186,10 @@ def _tt(x):
 
 
 def replay(ctx, c):
+    if c.get('mutated_in_place_from'):
+        ds0 = tuple(_tt(r) for r in c['mutated_in_place_from'][0])
+        histories(ctx, ds0, c['labels'], c['n'], [(tuple(c['scheme'][0]), tuple(c['scheme'][1]))])
+        return
     ds = tuple(_tt(r) for r in c['dataset'])
     s = (tuple(c['scheme'][0]), tuple(c['scheme'][1]))
     check_case(ctx, ds, c['labels'], c['n'], [s, s], only=_tt(c['candidate']))
